@@ -8,7 +8,9 @@ it.  One model step = one call into a manager (one critical section of that mana
 `server.go` after the repairs (`TimerMap.Reset` atomic under the map lock, `Lock.Unlock` atomic):
 
   Unlock thread   U0 `lockTimerMgr.Remove`  →  (stopped)  U1 `lockMgr.Unlock`  →  U2 `sessionMgr.RemoveLock` → answer
-                                            →  (not stopped: timer already fired) answer unlocked=true at once
+                                            →  (not stopped: timer already fired)  U2f `RemoveLock` → answer unlocked=true
+                                               (this path was first modelled without the `RemoveLock`; the trace
+                                               validation `driver linlease` rejected real schedules and the model was corrected)
   Renew           one step: `lockTimerMgr.Reset` (lookup, Stop, Reset under the map lock) → answer
   lease callback  spawned when the runtime timer fires:  C1 `lockMgr.Unlock` → C2 `RemoveLock` → C3 `timermap.Remove(self)`
 
@@ -33,6 +35,8 @@ inductive UPc
   | u0      -- before `lockTimerMgr.Remove`
   | u1      -- timer stopped or absent: about to call `lockMgr.Unlock`
   | u2      -- `lockMgr.Unlock` succeeded: about to call `RemoveLock`
+  | u2f     -- the timer had already fired (`Remove` reported not stopped): `unlocked = true` without
+            -- calling `lockMgr.Unlock`, about to call `RemoveLock`
 deriving DecidableEq, Repr
 
 structure St where
@@ -74,13 +78,16 @@ def step (s : St) : Act → Option (St × Ans)
       | .u0 =>
         -- `Remove`: stopped = true unless an entry exists whose timer has fired; the entry is deleted
         match s.timer with
-        | .fired => some ({ s with timer := .none, unl := rest, saidUnlocked := s.saidUnlocked + 1, owed := true }, .unlocked true)
+        | .fired => some ({ s with timer := .none, unl := rest ++ [(t, .u2f)], owed := true }, .none)
         | _ => some ({ s with timer := .none, unl := rest ++ [(t, .u1)] }, .none)
       | .u1 =>
         -- `lockMgr.Unlock`: succeeds iff the pair is held
         if s.held then some ({ s with held := false, unl := rest ++ [(t, .u2)] }, .none)
         else some ({ s with unl := rest }, .unlocked false)
       | .u2 =>
+        some ({ s with booked := false, unl := rest, saidUnlocked := s.saidUnlocked + 1 }, .unlocked true)
+      | .u2f =>
+        -- `RemoveLock`, then the answer unlocked=true: the release is owed by the callback that is running
         some ({ s with booked := false, unl := rest, saidUnlocked := s.saidUnlocked + 1 }, .unlocked true)
   | .renew =>
     match s.timer with
